@@ -459,8 +459,12 @@ int kerl_make_argcv_escape(const char *argstring, size_t *argcOut, char ***argvO
     if (line) free(line);
 #ifdef HAVE_LIBREADLINE
     if (quot || esc) {
-      int add_newline = quot && (j == 0 || buf[j-1] != '\n');
-      if (add_newline) buf[j++] = '\n';
+      // a quoted argument continued on the next line contains the line break (every one of them: empty lines included)
+      int add_newline = quot != 0;
+      if (add_newline) {
+        if (bufcap <= j + 2) { bufcap *= 2; buf = realloc(buf, bufcap); }
+        buf[j++] = '\n';
+      }
       line = readline(quot == '"' ? "dquote> " : quot == '\'' ? "quote> " : "> ");
       if (!line) { printf("\n"); free(buf); *argcOut = 0; *argvOut = NULL; return -1; }
       _more_final_append(line, add_newline);
